@@ -226,7 +226,13 @@ class Legit:
     def from_daemon(self, data):
         w = self.loop.w
         out = w.dispatch('B', data, 'A')
-        self.answered = True
+        # only the response to the outstanding request settles it (the daemon also answers hostile datagrams that carry B's source address)
+        try:
+            h, q = W.dec_header(bytes(data)), W.dec_header(self.last) if self.last else None
+        except W.WireError:
+            h = q = None
+        if h and q and h['response'] and h['spi_i'] == q['spi_i'] and h['mid'] == q['mid'] and h['xchg'] == q['xchg']:
+            self.answered = True
         if out is not None:
             self.queue.append(bytes(out))
 
